@@ -511,6 +511,15 @@ func c18(args []string) {
 		"Names":  J{"type": "array", "maxItems": 4, "items": J{"type": "string", "minLength": 1}},
 		"Score":  J{"type": "integer", "format": "int32", "minimum": 0, "maximum": 10},
 		"Dict":   J{"type": "object", "additionalProperties": J{"type": "string", "maxLength": 5}},
+		// definitions whose file name would end in a word go/build reads as a constraint (_test, an operating system, an
+		// architecture, of past, present and future ports): the file must be one the go tool (and so the scanner) looks at
+		"UltraSparc": J{"type": "object", "required": []interface{}{"cores"}, "properties": J{"cores": J{"type": "integer", "format": "int32", "minimum": 1}}},
+		"gnu_hurd":   J{"type": "object", "properties": J{"release": J{"type": "string", "maxLength": 8}}},
+		"lab_test":   J{"type": "object", "properties": J{"passed": J{"type": "boolean"}}},
+		"cpu_riscv":  J{"type": "string", "enum": []interface{}{"rv32", "rv64"}},
+		"DeviceIos":  J{"type": "object", "properties": J{"model": J{"type": "string"}}},
+		"Inventory": J{"type": "object", "properties": J{"primary": J{"$ref": "#/definitions/UltraSparc"}, "os": J{"$ref": "#/definitions/gnu_hurd"},
+			"machines": J{"type": "array", "items": J{"$ref": "#/definitions/UltraSparc"}}, "arch": J{"$ref": "#/definitions/cpu_riscv"}, "phone": J{"$ref": "#/definitions/DeviceIos"}, "run": J{"$ref": "#/definitions/lab_test"}}},
 	}
 	classOf := map[string]string{}
 	per := 12
